@@ -300,9 +300,10 @@ def parseModeSet (id spec : String) : SetInfo :=
       | p :: s :: mask :: ast =>
         let cs := (",".intercalate ast).toList.toArray
         let base := (parseRe cs 0).1
-        (({ re := (if natOf s / 4 % 2 == 1 then foldCase base else base), prec := p.toInt?.getD 0, isString := natOf s % 2 == 1 } : Token), natOf mask)
-      | _ => (default, 0))
-    { id := id, toks := toks.map (·.1), masks := toks.map (·.2), follow := follow, texts := [], word := word, reserved := reserved, reservedB := reservedB, extras := extras }
+        (({ re := (if natOf s / 4 % 2 == 1 then foldCase base else base), prec := p.toInt?.getD 0, isString := natOf s % 2 == 1 } : Token), natOf mask,
+         (if natOf s % 2 == 1 && natOf s / 4 % 2 == 0 then parseLit cs else none))
+      | _ => (default, 0, none))
+    { id := id, toks := toks.map (·.1), masks := toks.map (·.2.1), follow := follow, texts := toks.map (·.2.2), word := word, reserved := reserved, reservedB := reservedB, extras := extras }
   | _ => {}
 
 /-- grammar-level automaton of a two-mode grammar: mode 0 = before any marker, 1 = A, 2 = B;
@@ -403,6 +404,8 @@ structure MTally where
   firstOther : String := ""
   leak : Nat := 0
   firstLeak : String := ""
+  kwRej : Nat := 0
+  firstKwRej : String := ""
   deriving Inhabited
 
 /-- judge one real parse of a two-mode grammar.  `events` = every lexing step of the real parser
@@ -461,11 +464,30 @@ def evalEvents (si : SetInfo) (valid : Array (List Nat)) (cps : String) (input :
         else 0
       | none => 0
     else 0
+  -- "a keyword is recognised … when the whole word equals it" / which tokens become keywords is part of which token
+  -- wins: the parse failed at a step where the lexer returned a token WITHOUT an action in the state, although a token
+  -- that HAS an action there matches exactly the whole word (the word token's longest match) at that position
+  let wholeWordRejected : Bool :=
+    match si.word, events.getLast? with
+    | some w, some (tok, pos, _, state) =>
+      let rest := input.drop pos
+      let inp := skipExtras isExtra rest
+      let vs := valid.getD state []
+      -- (a RESERVED word is returned although it has no action: that rejection is the documented meaning of reserved words)
+      let isReserved := si.reserved.contains tok || (si.reservedB.getD []).contains tok
+      if isErr && !vs.contains tok && !isReserved then
+        match (matchLens (tokAt si.toks w).re inp).getLast? with
+        | some nw => vs.any (fun t => t != w && t < si.toks.length && matchesB (tokAt si.toks t).re (inp.take nw))
+        | none => false
+      else false
+    | _, _ => false
   let leaks := events.map (fun (tok, pos, en, state) => leakKind tok pos en state)
   let mergedOvertake := leaks.any (· == 1)
   let mergedLeak := leaks.any (· == 2)
   if isErr && mergedLeak && !mergedOvertake then
     return { a with leak := a.leak + 1, firstLeak := if a.firstLeak == "" then cps else a.firstLeak }
+  if wholeWordRejected && !mergedOvertake then
+    a := { a with kwRej := a.kwRej + 1, firstKwRej := if a.firstKwRej == "" then cps else a.firstKwRej }
   if bad && !(isErr && mergedOvertake) then a := { a with corrBad := a.corrBad + 1, firstCorr := if a.firstCorr == "" then cps else a.firstCorr }
   if isErr && mergedOvertake then
     a := { a with overtake := a.overtake + 1, firstOvertake := if a.firstOvertake == "" then cps else a.firstOvertake }
@@ -474,6 +496,22 @@ def evalEvents (si : SetInfo) (valid : Array (List Nat)) (cps : String) (input :
       a := { a with overtake := a.overtake + 1, firstOvertake := if a.firstOvertake == "" then cps else a.firstOvertake }
     else a := { a with other := a.other + 1, firstOther := if a.firstOther == "" then cps else a.firstOther }
   return a
+
+def hexOfNat (n : Nat) : String := String.ofList (Nat.toDigits 16 n)
+
+/-- JUDGE on the REAL keyword set (which tokens the generator took out of the main lexer): no keyword is
+shadowed by another keyword — a String keyword whose text the first one matches too and which is preferred
+on that text (precedence, String over RegExp, earlier rule): the keyword lexer could never return the
+shadowed one, so it must stay in the main lexer (`identify_keywords`, "exclude keyword candidates that
+shadow another keyword candidate").  Returns (shadowed, shadowing, common text). -/
+def shadowedKeyword (si : SetInfo) (kws : List Nat) : Option (Nat × Nat × List Nat) :=
+  kws.findSome? (fun k => kws.findSome? (fun k' =>
+    if k == k' then none else
+    match si.texts.getD k' none with
+    | some txt =>
+      if !txt.isEmpty && matchesB (tokAt si.toks k).re txt &&
+         decide (Better (keyOf si.toks (k', txt.length)) (keyOf si.toks (k, txt.length))) then some (k, k', txt) else none
+    | none => none))
 
 structure St where
   msi : SetInfo := {}
@@ -548,15 +586,20 @@ def step (s : St) (line : String) : IO St := do
     let mt := { s.mt with strings := s.mt.strings + 1, errors := s.mt.errors + (if isErr then 1 else 0) }
     return { s with mt := evalEvents s.msi s.mvalid cps input isErr events mt }
   | ["endmset", id] =>
+    match shadowedKeyword s.msi s.msi.kws with
+    | some (k, k', txt) =>
+      IO.println s!"S-{id} corr=ok judge=FAIL kwshadow {".".intercalate (txt.map hexOfNat)} shadowed={k} by={k'} strings={s.mt.strings} mode=true"
+      return s
+    | none =>
     if !s.msi.ambig.isEmpty then
       IO.println s!"S-{id} skipped=unclassified-keyword-tokens strings={s.mt.strings} ambig={s.msi.ambig}"
       return s
     let a := s.mt
     let corr := if a.corrBad == 0 then "ok" else s!"DIFF {a.firstCorr}"
-    let judge := if a.other > 0 then s!"FAIL other {a.firstOther}" else if a.leak > 0 then s!"FAIL mergedleak {a.firstLeak}"
+    let judge := if a.other > 0 then s!"FAIL other {a.firstOther}" else if a.kwRej > 0 then s!"FAIL kwreject {a.firstKwRej}" else if a.leak > 0 then s!"FAIL mergedleak {a.firstLeak}"
       else if a.overtake > 0 then s!"FAIL overtake {a.firstOvertake}" else "ok"
     let distinctSets := (s.mvalid.toList.eraseDups).length
-    IO.println s!"S-{id} corr={corr} judge={judge} strings={a.strings} errors={a.errors} nontrivial={a.ctx} corrbad={a.corrBad} docdev={a.overtake + a.other + a.leak} overtake={a.overtake} other={a.other} mergedleak={a.leak} tokens={a.leaves} ntok={s.msi.toks.length} word={s.msi.word.isSome} keywords={s.msi.kws.length} reserved={s.msi.reserved.length} mode=true states={s.mvalid.size} validsets={distinctSets}"
+    IO.println s!"S-{id} corr={corr} judge={judge} strings={a.strings} errors={a.errors} nontrivial={a.ctx} corrbad={a.corrBad} docdev={a.overtake + a.other + a.leak + a.kwRej} overtake={a.overtake} other={a.other} mergedleak={a.leak} kwreject={a.kwRej} tokens={a.leaves} ntok={s.msi.toks.length} word={s.msi.word.isSome} keywords={s.msi.kws.length} reserved={s.msi.reserved.length} mode=true states={s.mvalid.size} validsets={distinctSets}"
     return s
   | ["kw", l] => return { s with si := { s.si with kws := if l == "-" then [] else (l.splitOn ",").map natOf } }
   | ["ambig", l] =>
@@ -572,6 +615,11 @@ def step (s : St) (line : String) : IO St := do
       IO.println s!"S-{id} skipped=too-many-unclassified-tokens ambig={s.si.ambig}"
       return s
     let best := s.variants.foldl (fun (b : List Nat × Tally) v => if v.2.corrBad < b.2.corrBad then v else b) s.variants[0]!
+    match shadowedKeyword s.si best.1 with
+    | some (k, k', txt) =>
+      IO.println s!"S-{id} corr=ok judge=FAIL kwshadow {".".intercalate (txt.map hexOfNat)} shadowed={k} by={k'} strings={best.2.strings}"
+      return s
+    | none =>
     let a := best.2
     let corr := if a.corrBad == 0 then "ok" else s!"DIFF {a.firstCorr}"
     let judge := if a.other > 0 then s!"FAIL other {a.firstOther}" else if a.overtake > 0 then s!"FAIL overtake {a.firstOvertake}"
